@@ -114,6 +114,36 @@ def main():
                                  "MutableRef.__iadd__")
                 except Exception as ex:      # noqa
                     rac.fail(key, f"C01 {' ; '.join(src[3:])}: raised {type(ex).__name__}: {ex}", scr, "MutableRef.__iadd__")
+    rac.section("redefinition-same-text", "a location re-defined by a DIFFERENT expression that prints like the old one (a revised function "
+                "of the same name, two lambdas, a bound method of another object, keyword spelled differently), with a dependant, "
+                "followed by a change of an upstream input: every location follows the NEW definition",
+                "4 ways of building a same-printing expression x 3 target shapes")
+    MK = {"revised function": ("def mk(k):\n    def calib(x):\n        return x * k + 1\n    return calib\nf1, f2 = mk(2.0), mk(10.0)",
+                               lambda x: x * 2.0 + 1, lambda x: x * 10.0 + 1),
+          "two lambdas": ("f1 = lambda x: -x\nf2 = lambda x: x + 100", lambda x: -x, lambda x: x + 100),
+          "functools.partial": ("import functools, operator\nf1 = functools.partial(operator.mul, 3.0)\nf2 = functools.partial(operator.add, 3.0)",
+                                lambda x: 3.0 * x, lambda x: 3.0 + x),
+          "callable objects": ("class Gain:\n    def __init__(self, g): self.g = g\n    def __call__(self, x): return self.g * x\n"
+                               "    def __repr__(self): return 'Gain'\nf1, f2 = Gain(2.0), Gain(5.0)", lambda x: 2.0 * x, lambda x: 5.0 * x)}
+    for how, (mk, py1, py2) in MK.items():
+        for tgt in ("r['y']", "r['n']['y']", "r['o'].y"):
+            src = ["import xdeps", "from xdeps.refs import CallRef", "class Obj:\n    pass", mk,
+                   "o = Obj(); o.y = 0.0", "d = {'x': 2.0, 'y': 0.0, 'z': 0.0, 'n': {'y': 0.0}, 'o': o}", "m = xdeps.Manager(); r = m.ref(d, 'd')",
+                   f"{tgt} = CallRef(f1, (r['x'],), {{}})", f"r['z'] = {tgt} + 0.5", f"{tgt} = CallRef(f2, (r['x'],), {{}})", "mid = (" + tgt.replace("r[", "d[", 1) + ", d['z'])",
+                   "r['x'] = 3.0", "end = (" + tgt.replace("r[", "d[", 1) + ", d['z'])"]
+            want_mid, want_end = (py2(2.0), py2(2.0) + 0.5), (py2(3.0), py2(3.0) + 0.5)
+            key = f"redefinition {how} {tgt}"
+            scr = PRELUDE + "\n".join(src) + f"\nassert mid == {want_mid!r} and end == {want_end!r}, (mid, end)\n"
+            rac.case(key, sample=dict(how=how, target=tgt))
+            env = {}
+            try:
+                exec("\n".join(src), env)
+            except Exception as ex:      # noqa
+                rac.fail(key, f"C01 {key}: raised {type(ex).__name__}: {ex}", scr, "Manager.set_value")
+                continue
+            if env["mid"] != want_mid or env["end"] != want_end:
+                rac.fail(key, f"C01 {tgt} = f1(x); z = {tgt} + 0.5; {tgt} = f2(x) [{how}]; x = 3.0: (y, z) = {env['mid']} then {env['end']}, "
+                         f"the new definition gives {want_mid} then {want_end}", scr, "Manager.set_value")
     rac.section("chains", "chains v[i+1] = v[i] + 1 of length N defined consumer-before-producer, then v[0] assigned",
                 "N in 50, 1500, 4000", exhaustive=False)
     import xdeps
